@@ -10,14 +10,11 @@ _TOKS = {}
 
 
 def tokenizer_for(subset):
-    key = ",".join(sorted(subset))
-    t = _TOKS.get(key)
-    if t is None:
-        with NoTracing():
-            cfg = {"extensions": {e: {"enabled": (e in subset)} for e in EXT}}
-            t = env.make_tokenizer(cfg)
-        _TOKS[key] = t
-    return t
+    """a fresh tokenizer per call (built untraced): C20 quantifies over single documents, so a
+    path must not see state left by the document of an earlier path (that is C13's subject)"""
+    with NoTracing():
+        cfg = {"extensions": {e: {"enabled": (e in subset)} for e in EXT}}
+        return env.make_tokenizer(cfg)
 
 
 def has(d, needle):
@@ -63,8 +60,6 @@ class ExtHarness:
         self.skeleton = params["skeleton"]
         self.holes = list(params["holes"])
         self.subset = list(params["subset"])
-        self.t_s = tokenizer_for(self.subset)
-        self.t_0 = tokenizer_for([])
 
     def variables(self):
         return [(f"c{i}", "int") for i in range(len(self.holes))]
@@ -86,8 +81,8 @@ class ExtHarness:
         if d is None:
             return SKIP
         try:
-            ts = self.t_s.transform(d, show_debug=False)
-            t0 = self.t_0.transform(d, show_debug=False)
+            ts = tokenizer_for(self.subset).transform(d, show_debug=False)
+            t0 = tokenizer_for([]).transform(d, show_debug=False)
         except Exception as exc:  # noqa  parse failure is C01's finding
             return ("parse-error", d)
         hs = TransformToGfm().transform(ts)
@@ -134,8 +129,8 @@ class FrontMatterHarness(ExtHarness):
             return SKIP
         full = self.block + rest
         try:
-            tf = self.t_s.transform(full, show_debug=False)
-            tr = self.t_s.transform(rest, show_debug=False)
+            tf = tokenizer_for(["front-matter"]).transform(full, show_debug=False)
+            tr = tokenizer_for(["front-matter"]).transform(rest, show_debug=False)
         except Exception:  # noqa
             return ("parse-error", rest)
         return ("ok", rest, tf, tr)
